@@ -6,9 +6,10 @@ KEY_H = "C03:hoisted-walrus-assigned-before-earlier-operands"
 
 def run(ctx: Ctx) -> int:
     n = ctx.pick(120, 1500)
-    nfixed = 11
-    jobs = e4_check.jobs_for(ctx, "c03", n, batch=3, timeout=ctx.pick(240, 1200), total=n + nfixed)
     from lib import e4_corpus
+    from lib.e4_region import tags
+    nfixed = len([s for s in e4_corpus.C03_FIXED if not tags(s)])
+    jobs = e4_check.jobs_for(ctx, "c03", n, batch=3, timeout=ctx.pick(240, 1200), total=n + nfixed)
     want = ctx.pick(3, 12)
     have = len(e4_corpus.corpus("c03", want, ctx.seed, "hoist-order"))
     jobs += e4_check.jobs_for(ctx, "c03", want, batch=3, timeout=ctx.pick(120, 600), region="hoist-order", key=KEY_H, total=have)
